@@ -43,7 +43,7 @@ def run(ctx):
     # lock-based code: schedules that switch threads only at lock acquisitions and inside critical sections (--points locks) reach the
     # "stalled between reading the table state and taking the lock, while another thread completes a whole resize" interleavings
     # that uniform switching among all atomic accesses practically never produces (seeded change C16b)
-    lockpts = [("random", 150 if q else 6000, 0), ("pct", 60 if q else 3000, 0)]
+    lockpts = [("random", 100 if q else 6000, 0), ("pct", 40 if q else 3000, 0)]
     RESIZE3 = ["ins:5,find:5|ins:1,ins:3,ins:7,ins:9,ins:11|ins:5,find:5;size", "ins:2,era:2,ins:2|ins:4,ins:6,ins:8,ins:10|era:2,ins:2,find:2;size"]
     jobs += make_jobs(ctx, "set_lock", allv, ps + RESIZE3, strat=lockpts, extra_of=lambda v: ["--points", "locks"])
     jobs += make_jobs(ctx, "set_lock", STRIPED_LF1, GROW_LF1, strat=lockpts, extra_of=lambda v: ["--points", "locks"]) + make_jobs(ctx, "set_lock", STRIPED_SB2, GROW_SB2, strat=lockpts, extra_of=lambda v: ["--points", "locks"])
